@@ -188,3 +188,30 @@ Proof.
   unfold select_h. destruct (hclone _ _ _) as [? ?].
   destruct (if elitism c then _ else _) as [? ?]. destruct (hclone_all _ _ _ _) as [? ?]. discriminate.
 Qed.
+
+(* in-place writes above a bound leave everything below it alone *)
+Lemma writes_frame : forall ws h n, (forall w, In w ws -> n <= fst w) ->
+  forall l, l < n -> store (writes h ws) l = store h l.
+Proof.
+  induction ws as [|w t IH]; intros h n Hb l Hl; cbn [writes]; [reflexivity|].
+  rewrite (IH _ n) by (auto; intros x Hx; apply Hb; right; exact Hx). cbn.
+  destruct (Nat.eqb_spec l (fst w)); [|reflexivity]. specialize (Hb w (or_introl eq_refl)). lia.
+Qed.
+
+(* the old population stays untouched even when the children are subsequently trained, evaluated
+   (scores appended in place) or mutated: any writes to objects owned by the elite / the members *)
+Theorem parents_survive_children_lemma rk c pop draws h e np h' :
+  wf_pop h pop -> select_h rk c pop draws h = Some (e, np, h') ->
+  forall ws, (forall w, In w ws -> In (fst w) (concat (map owned (e :: np)))) ->
+  forall a, In a pop -> abs (writes h' ws) a = abs h a.
+Proof.
+  intros Wp E ws Hws a Ha.
+  destruct (copies_are_fresh_lemma _ _ _ _ _ _ _ _ Wp E) as (_ & Hge & _).
+  destruct (old_untouched_lemma _ _ _ _ _ _ _ _ Wp E) as (Hfr & Habs).
+  rewrite <- (Habs a Ha).
+  assert (F : forall l, l < next h -> store (writes h' ws) l = store h' l).
+  { apply writes_frame. intros w Hw. apply Hge, Hws, Hw. }
+  unfold abs. f_equal.
+  - rewrite F; [reflexivity|]. apply (Wp a Ha). left. reflexivity.
+  - apply map_ext_in. intros l Hl. apply F. apply (Wp a Ha). right. exact Hl.
+Qed.
